@@ -27,11 +27,35 @@ type SolveOpts struct {
 	WorkDir   string
 	Cross     bool // thorough: cross-check every obligation on all solvers
 	NoRetry   func(name string) bool // obligations that are not claimed / recorded findings: one attempt only
+	CPUSecs   int  // > 0: the limit is CPU time of the solver process (RLIMIT_CPU), not wall-clock time; TimeoutMs is then only the wall-clock backstop
 }
 
 func runSolver(ctx context.Context, solver string, file string, timeoutMs int) (string, error) {
+	return runSolverCPU(ctx, solver, file, timeoutMs, 0)
+}
+
+// runSolverCPU: with cpuSecs > 0 the solver runs under `prlimit --cpu`, so that what bounds it is the processor time it
+// received, not the time that went by: on a machine shared with other work a wall-clock timeout says nothing about the
+// obligation (the process may have been scheduled for a fraction of it), and a timeout must never become an alarm.
+func runSolverCPU(ctx context.Context, solver string, file string, timeoutMs int, cpuSecs int) (string, error) {
 	var cmd *exec.Cmd
 	secs := timeoutMs/1000 + 2
+	if cpuSecs > 0 {
+		var args []string
+		switch solver {
+		case "z3-new", "z3":
+			args = []string{fmt.Sprintf("--cpu=%d", cpuSecs), solver, fmt.Sprintf("-T:%d", secs), fmt.Sprintf("-t:%d", timeoutMs), file}
+		case "cvc5":
+			args = []string{fmt.Sprintf("--cpu=%d", cpuSecs), "cvc5", "--incremental", fmt.Sprintf("--tlimit-per=%d", timeoutMs), fmt.Sprintf("--tlimit=%d", timeoutMs+2000), file}
+		}
+		cmd = exec.CommandContext(ctx, "prlimit", args...)
+		cmd.SysProcAttr = &syscall.SysProcAttr{Pdeathsig: syscall.SIGKILL}
+		var out bytes.Buffer
+		cmd.Stdout = &out
+		cmd.Stderr = &out
+		err := cmd.Run()
+		return out.String(), err
+	}
 	switch solver {
 	case "z3-new":
 		cmd = exec.CommandContext(ctx, "z3-new", fmt.Sprintf("-T:%d", secs), fmt.Sprintf("-t:%d", timeoutMs), file)
@@ -185,7 +209,7 @@ func raceOne(f *FuncVC, o *Oblig, first *Verdict, opts SolveOpts) *Verdict {
 	for _, s := range solvers {
 		go func(s string) {
 			t0 := time.Now()
-			out, _ := runSolver(ctx, s, file, opts.TimeoutMs*2)
+			out, _ := runSolverCPU(ctx, s, file, opts.TimeoutMs*2, opts.CPUSecs)
 			a := parseChecks(out)
 			st := "unknown"
 			if len(a) > 0 {
